@@ -411,14 +411,10 @@ func (s *Server) Get(req *spb.GetRequest, stream spb.GRIBI_GetServer) error {
 	// defer a function to stop the goroutine and close all channels, since this will be called
 	// when we exit, then it will stop the goroutine that we started to do
 	// the get in the case that we exit due to some error.
-	defer func() {
-		// Non-blocking write to the stopCh, since if the goroutine has
-		// already returned then it won't be listening and we'll deadlock.
-		select {
-		case stopCh <- struct{}{}:
-		default:
-		}
-	}()
+	// Closing the channel (rather than writing to it) means that the goroutine
+	// observes the request to stop whenever it next looks, even if it is blocked
+	// writing a message that will never be read at the time that we return.
+	defer close(stopCh)
 
 	go s.doGet(req, msgCh, doneCh, stopCh, errCh)
 
@@ -1053,7 +1049,10 @@ func checkElectionForModify(opID uint64, opElecID *spb.Uint128, election *electi
 func (s *Server) doGet(req *spb.GetRequest, msgCh chan *spb.GetResponse, doneCh, stopCh chan struct{}, errCh chan error) {
 	// Any time we return we return we tell the done channel that we're complete.
 	defer func() {
-		doneCh <- struct{}{}
+		select {
+		case doneCh <- struct{}{}:
+		case <-stopCh:
+		}
 	}()
 
 	if req == nil {
